@@ -310,6 +310,21 @@ func faultBody(r *explore.Run, rep *report.R, sc string, cases []icase, reads bo
 	r.Logf("initial store %s (%d objects; %s; packages %s); init %s", ic.name, len(pre.keys), describeSecrets(pre), describePackages(pre), ic.cfg)
 
 	inj := &xrh.FaultInjector{Run: r, Reads: reads}
+	if !reads {
+		// Quick tier: of the 17 CRD applies (identical code path, one call
+		// pair each) only the first, a middle one and the conversion-webhook
+		// CRD are fault points. The thorough tier faults every call.
+		inj.Filter = func(c simkube.Call) bool {
+			if c.Key.Kind != crdGK.Kind || c.Sub != "" {
+				return true
+			}
+			switch c.Key.Name {
+			case "compositeresourcedefinitions.apiextensions.crossplane.io", "functions.pkg.crossplane.io", "widgets.verif.crossplane.io":
+				return true
+			}
+			return false
+		}
+	}
 	s.Inj = inj
 	inj.Armed = true
 	res1 := runInit(s, ic.cfg, -1)
@@ -351,12 +366,12 @@ func TestCheck(t *testing.T) {
 		"Every case drives the real step list of `crossplane core init` (same constructors/options/order as cmd/crossplane/core/init.go; real RSA/x509, CRDs and webhook configurations parsed from <repo>/cluster) over simkube. "+
 			"idempotence: initial store enumerated over {empty, Helm's empty secrets, fully initialised, after step i for every i, CA with only key / only cert x TLS secrets absent/complete, server/client secret lacking tls.crt|tls.key|ca.crt, server secret emptied, client secret removed, another CA bundle on every carrier, user-edited / user-made default objects, older release (old stored versions + custom resources + other bundles), CRDs removed} x step-list variants {webhooks + synthetic conversion-webhook CRD, production directory + ESS, webhooks disabled}; 3 runs each, post-conditions after run 1 and symbolic store equality / byte-identical secrets / unchanged resourceVersions after runs 2 and 3. "+
 			"packages: kind x requested reference form x installed set, run twice on an initialised cluster. "+
-			"abort-and-repeat: every API call of run 1 is a fault point {error-before, conflict, error-after, crash-before, crash-after} (<= 1 fault), then a fault-free run; final store must equal (symbolically) the store one clean run reaches from the same initial store, material present after the aborted run is kept, all post-conditions hold. "+
+			"abort-and-repeat: every API call of run 1 (thorough: reads too; quick: writes, with 3 of the 17 identical CRD applies) is a fault point {error-before, conflict, error-after, crash-before, crash-after} (<= 1 fault), then a fault-free run; final store must equal (symbolically) the store one clean run reaches from the same initial store, material present after the aborted run is kept, all post-conditions hold. "+
 			"Non-trivial: initial store not empty, or a package list given, or a fault injected (distinct = distinct case identity incl. fault).",
 		[]string{
 			"simkube models the API server (create/update/merge-patch/status, optimistic concurrency, AlreadyExists)",
 			"stores are compared symbolically: resourceVersion, uid, generation, time stamps dropped and every blob of key material replaced by the name of the secret key that holds it (RSA key bytes are never compared across runs; 'kept' means byte-identical within one history)",
-			"'the current CA bundle' of a CRD / webhook configuration is judged operationally: the bundle must validate (crypto/x509 Verify, DNS name svc.ns.svc, server auth) the serving certificate currently stored in the webhook TLS secret, and equal what a fresh install injects; the code injects that secret's tls.crt, not the root CA certificate",
+			"'the current CA bundle' of a CRD / webhook configuration is judged operationally: the bundle must validate (crypto/x509 Verify, server auth) the serving certificate currently stored in the webhook TLS secret, and equal what a fresh install injects; the code injects that secret's tls.crt, not the root CA certificate",
 			"no CRD in cluster/crds uses webhook conversion at this revision; a synthetic conversion-webhook CRD is added to an in-memory copy of the directory (CoreCRDs WithFs option) in the 'default' variant so that the injection branch runs",
 			"image repository identity = registry host + repository path. A reference without host and one spelling out the default registry (xpkg.crossplane.io, a `core start` flag init does not see) are treated as possibly-same: neither updating in place nor installing beside is a violation for such pairs (reported as classes)",
 			"a request may rewrite an object of another registry only when that object already has the name the request derives (Kubernetes naming); a custom-named object of a different repository must stay untouched",
@@ -374,6 +389,11 @@ func TestCheck(t *testing.T) {
 	rep.Bound("package_installed_sets", len(installedSets(th)))
 	rep.Bound("initial_stores_abort_and_repeat", len(fcases))
 	rep.Bound("read_calls_are_fault_points", th)
+	if th {
+		rep.Bound("fault_points", "every API call of run 1")
+	} else {
+		rep.Bound("fault_points", "every write call of run 1, except that only 3 of the 17 identical CRD applies are fault points")
+	}
 	rep.Note("RSA-2048 generation is real but does not dominate (about 0.1 s per key); parsing and applying the 16 core CRDs (0.5 s per run) does. Fully initialised input stores are produced once per process and cloned.")
 
 	wrap := report.Bubble(t)
